@@ -29,6 +29,8 @@ type PartialFamily struct {
 	UndoAs   string // when set, states reached through an Undo report their clauses under this property (C06)
 	ArgRev   bool   // blocks, Verify(remember), Ingest, Prune and Undo get their targets / hashes in descending order
 	Alloc    bool   // Verify(remember) is given its targets in the coordinates of the allocated height (documented as accepted)
+	Bad      bool   // after every operation the instance also receives calls that must change nothing: rejected
+	// Verify(remember) / VerifyPartialProof(remember) (wrong leaf hash, wrong proof hash) and Prune of hashes it does not cache
 	FullFR   bool   // the "fromroots" transition creates a FULL map forest (NewMapPollardFromRoots(..., true)); the
 	// block transitions then remember every addition and the "stores nothing beyond" clause is dropped
 }
@@ -261,8 +263,74 @@ func (f *PartialFamily) run(x *Exec, hist []Op) (*u.MapPollard, *partModel, bool
 		default:
 			panic("partial: bad op " + op.Kind)
 		}
+		if f.Bad && !f.rejectedCalls(x, name, m, md) {
+			return m, md, false
+		}
 	}
 	return m, md, true
+}
+
+// rejectedCalls issues, on the current state, calls that the model treats as no-ops: Verify(remember=true) and
+// VerifyPartialProof(remember=true) of claims with one wrong leaf hash or one wrong proof hash (rejected on the
+// unchanged code), and Prune of hashes the instance does not cache (a never-added hash, a dead leaf, a live leaf
+// that is not remembered). C09's oracle then runs on whatever state they leave behind: the model does not change,
+// so a false hash stored by an accepted false claim is reported as "stored position holds a wrong hash" (the
+// acceptance itself is C03's subject and only noted).
+func (f *PartialFamily) rejectedCalls(x *Exec, name string, m *u.MapPollard, md *partModel) bool {
+	L := ref.APILayout(md.s)
+	live := md.s.Live()
+	var sets [][]int
+	if len(live) > 0 {
+		sets = append(sets, []int{live[0]})
+		if len(live) > 1 {
+			sets = append(sets, []int{live[len(live)-1]}, live)
+		}
+	}
+	for _, set := range sets {
+		proof := L.Proof(set)
+		hs := ref.Hashes(set)
+		wrong := append([]Hash(nil), hs...)
+		wrong[len(wrong)-1] = ref.FreshHash(77)
+		if err := x.VerifyAcc(name, m, wrong, proof, true); err == nil {
+			x.Note("a claim with a wrong leaf hash was accepted by Verify(remember)")
+		}
+		if err := safe(func() error { return m.VerifyPartialProof(proof.Targets, wrong, proof.Proof, true) }); err == nil {
+			x.Note("a claim with a wrong leaf hash was accepted by VerifyPartialProof(remember)")
+		} else if isPanic(err) {
+			x.Report(f.Prop, "panic in VerifyPartialProof(remember) on a false claim", err.Error())
+			return false
+		}
+		if len(proof.Proof) > 0 {
+			bp := u.Proof{Targets: proof.Targets, Proof: append([]Hash(nil), proof.Proof...)}
+			bp.Proof[0] = ref.FreshHash(78)
+			if err := x.VerifyAcc(name, m, hs, bp, true); err == nil {
+				x.Note("a proof with a wrong proof hash was accepted by Verify(remember)")
+			}
+		}
+	}
+	junk := []Hash{ref.FreshHash(79)}
+	for i := 0; i < md.s.N(); i++ {
+		if !md.s.Alive[i] {
+			junk = append(junk, ref.LeafHash(i))
+			break
+		}
+	}
+	if !md.fullNow {
+		for _, i := range live {
+			if !md.must[i] {
+				junk = append(junk, ref.LeafHash(i))
+				break
+			}
+		}
+	}
+	if err := x.Prune(name, m, junk); err != nil {
+		if isPanic(err) {
+			x.Report(f.Prop, "panic in Prune of hashes that are not cached", err.Error())
+			return false
+		}
+		x.Note("Prune of hashes that are not cached returns an error")
+	}
+	return true
 }
 
 // checkPartial is the C09 oracle on one state.
@@ -755,6 +823,13 @@ func init() {
 				break
 			}
 			BFS(c, &PartialFamily{Nmax: nO, TR: 63, UndoBud: 1, Junk: true, Prop: "C09", Base: b}, 0)
+		}
+		// rejected calls and no-op prunes after every operation
+		c.Cov.Bound["A_rejected_calls"] = fmt.Sprintf("Nmax=%d, TotalRows 0, 2 and 63, after every operation: rejected Verify(remember) / VerifyPartialProof(remember) (wrong leaf hash, wrong proof hash) and Prune of hashes that are not cached; undo budget 1, fromroots budget 1", nA)
+		for _, tr := range []uint8{0, 2, 63} {
+			if !c.Expired() {
+				BFS(c, &PartialFamily{Nmax: nA, TR: tr, UndoBud: 1, FRBud: 1, NoIngest: true, Bad: true, Prop: "C09"}, 0)
+			}
 		}
 		partialMedium(c)
 		nB := pick(c, 5, 6)
